@@ -86,7 +86,8 @@ Inductive sink :=
 | KIns (vid : nat) (idx : N)
 | KForget
 | KMut (k : sink)                        (* replace the value through the handle first *)
-| KLazy (n : N) (vid : nat) (k : sink).  (* push n lazy clones of it into vid first *)
+| KLazy (n : N) (vid : nat) (k : sink)   (* push n lazy clones of it into vid first *)
+| KLazyDown (n : N) (k : sink).          (* n times lazy_clone().downcast::<T>() (values then dropped) first *)
 
 Inductive iterkind := IRef | IMut | ITypedRef | ITypedMut.
 Inductive fin := FinDrop | FinForget.
@@ -127,7 +128,9 @@ Inductive op :=
 | ORead (hk : N) (v : nat) (idx : N)             (* read element idx through view kind hk *)
 | OSwap (pr : N) (v1 : nat) (i : N) (v2 : nat) (j : N)   (* AnyValueMut::swap between handle kinds *)
 | OParts (v : nat) (mode : N)                    (* into_raw_parts / clone / from_raw_parts *)
-| OPlacement.                                    (* storage alignment over all placements of the vector *)
+| OPlacement                                     (* storage alignment over all placements of the vector *)
+| OIterNth (ik : iterkind) (v : nat) (pat : list (bool * N))   (* Iterator::nth / nth_back calls *)
+| OLazyDown (depth : N) (v : nat) (idx : N).     (* vecs[v].at(idx).lazy_clone()^depth .downcast::<T>() *)
 
 (** ** Offering a value to push / insert *)
 
@@ -233,6 +236,21 @@ Definition make_offer (c : cfg) (s : src) : M world offer :=
 Fixpoint repeat_m {S} (n : nat) (m : M S unit) : M S unit :=
   match n with O => ret tt | S k => m;; repeat_m k m end.
 
+(** [lazy.downcast::<T>()]: the source bytes are cloned into a temporary (user [Clone], fuse first),
+    the value is returned and later destroyed by the caller. *)
+Definition lazy_down (c : cfg) (v : nat) (bs : mem) : M world N :=
+  do t <- decode c bs;
+  on_vec v user_call;;
+  do n <- freshw c;
+  emitw (EClone t n);;
+  harness_drop c n;;
+  ret n.
+Fixpoint lazy_downs (c : cfg) (v : nat) (n : nat) (get : M world mem) : M world (list N) :=
+  match n with
+  | O => ret []
+  | S k => do bs <- get; do x <- lazy_down c v bs; do r <- lazy_downs c v k get; ret (x :: r)
+  end.
+
 Fixpoint apply_sink (c : cfg) (v : nat) (known : bool) (h : temp) (k : sink)
   : M world (list N) :=
   match k with
@@ -271,6 +289,11 @@ Fixpoint apply_sink (c : cfg) (v : nat) (known : bool) (h : temp) (k : sink)
                                 f_checked := true; f_drop := DNone |} (push_unchecked c)))
         (on_vec v (temp_drop c known h));;
       apply_sink c v known h k'
+  | KLazyDown n k' =>
+      do xs <- unwinding (lazy_downs c v (N.to_nat n) (on_vec v (temp_bytes c h)))
+                         (on_vec v (temp_drop c known h));
+      do r <- apply_sink c v known h k';
+      ret (xs ++ r)
   end.
 
 (** ** Items of an iterator *)
@@ -331,6 +354,11 @@ Fixpoint item_sink (c : cfg) (v : nat) (a : api) (p : eptr) (k : sink) : M world
                                 f_checked := true; f_drop := DNone |} (push_unchecked c)))
         (on_vec v (elem_drop c p));;
       item_sink c v a p k'
+  | KLazyDown n k' =>
+      do xs <- unwinding (lazy_downs c v (N.to_nat n) (on_vec v (read_ptr c p)))
+                         (on_vec v (elem_drop c p));
+      do r <- item_sink c v a p k';
+      ret (xs ++ r)
   end.
 
 (** Walk a consumption pattern over a cursor.  Each call reports
@@ -368,6 +396,31 @@ Fixpoint walk_ro (c : cfg) (v : nat) (pat : list bool) (k : cursor) : M world (l
           do bs <- elem_bytes c v idx;
           do t <- decode c bs;
           do r <- walk_ro c v rest k';
+          ret (1 :: t :: cur_len k' :: r)
+      end
+  end.
+
+(** [Iterator::nth(n)] / [DoubleEndedIterator::nth_back(n)]: the crate does not override them, so they
+    are std's default - [n] discarded calls of [next] / [next_back], then one more. *)
+Fixpoint cur_skip (front : bool) (n : nat) (k : cursor) : cursor :=
+  match n with
+  | O => k
+  | S m => cur_skip front m (snd (if front then cur_next k else cur_next_back k))
+  end.
+Definition cur_nth (front : bool) (n : N) (k : cursor) : option N * cursor :=
+  let k' := cur_skip front (N.to_nat n) k in
+  if front then cur_next k' else cur_next_back k'.
+Fixpoint walk_nth (c : cfg) (v : nat) (pat : list (bool * N)) (k : cursor) : M world (list N) :=
+  match pat with
+  | [] => ret []
+  | (front, n) :: rest =>
+      let '(oi, k') := cur_nth front n k in
+      match oi with
+      | None => do r <- walk_nth c v rest k'; ret (0 :: 0 :: cur_len k' :: r)
+      | Some idx =>
+          do bs <- elem_bytes c v idx;
+          do t <- decode c bs;
+          do r <- walk_nth c v rest k';
           ret (1 :: t :: cur_len k' :: r)
       end
   end.
@@ -624,6 +677,15 @@ Definition exec (c : cfg) (o : op) : M world (N * list N) :=
       (* len, capacity, layout size, align, type id ok, has drop fn; no event, state unchanged *)
       ret (0, [vlen vv; vcap vv; c_sz c; c_al c; 1; if c_dg c then 1 else 0])
   | OPlacement => ret (0, [0])
+  | OIterNth _ v pat =>
+      do vv <- peek_vec v;
+      let k := {| ci := 0; ce := vlen vv |} in
+      do r <- walk_nth c v pat k;
+      ret (0, cur_len k :: r)
+  | OLazyDown _ v idx =>
+      do bs <- elem_bytes c v idx;
+      do x <- lazy_down c v bs;
+      ret (0, [x])
   end.
 
 (** One step of a case: fresh event log, the given fuse; a panic is caught
